@@ -383,6 +383,17 @@ func (c *pathParser) addSeg(segString []byte) error {
 				c.points[i+5] += c.currentX
 				c.points[i+6] += c.currentY
 			}
+			endX, endY := c.points[i+5], c.points[i+6]
+			if endX == c.currentX && endY == c.currentY {
+				// identical endpoints: the segment is omitted
+				continue
+			}
+			if c.points[i] == 0 || c.points[i+1] == 0 {
+				// a zero radius is a straight line to the end point
+				c.lineTo(endX, endY)
+				c.currentX, c.currentY = endX, endY
+				continue
+			}
 			c.addArcFromA(c.points[i:])
 		}
 	default:
@@ -406,7 +417,8 @@ func (c *pathParser) addSeg(segString []byte) error {
 
 // addArcFromA adds a path of an arc element to the cursor path to the pathCursor
 func (c *pathParser) addArcFromA(points []Fl) {
-	ra, rb := float64(points[0]), float64(points[1])
+	// negative radii are used by their absolute value
+	ra, rb := math.Abs(float64(points[0])), math.Abs(float64(points[1]))
 	cx, cy := findEllipseCenter(&ra, &rb, float64(points[2])*math.Pi/180, float64(c.currentX),
 		float64(c.currentY), float64(points[5]), float64(points[6]), points[4] == 0, points[3] == 0)
 	points[0], points[1] = Fl(ra), Fl(rb)
